@@ -34,7 +34,7 @@ REQUIRED_HOOKS = [
     "AtomGrid.weights=", "MolGrid.points=", "MolGrid.weights=", "UniformGrid.points=", "UniformGrid.weights=", "Tensor1DGrids.weights=", "AngularGrid.weights=",
     "LinearInfiniteRTransform.set_maximum_parameter_b",
 ]
-REQUIRED_FAMILIES = ["api-aliasing", "ode-callbacks", "ode-data", "poisson", "transforms"]
+REQUIRED_FAMILIES = ["api-aliasing", "ode-callbacks", "ode-data", "ode-structure", "poisson", "transforms"]
 BUDGET = {"quick": 1200, "thorough": 4800}
 MODES = ("fresh", "readonly", "view", "alias")
 ORDERS = ("ascending", "descending", "shuffled", "repeated")
@@ -49,7 +49,7 @@ RULE = (
     "each API - angular method, presets incl. shell-count ones, rotate, store, weight schemes, negative axes, use_log/nu_*, which=, wrap, trim_inf and the "
     "transform end points, moment types, chunk sizes, elements without a Bragg radius, custom radii, orders - rotate deterministically with (replica, pattern) "
     "so that every option is entered in every run; arrays whose order the API leaves free are handed over ascending / descending / shuffled / with "
-    "repeated values; every sequence ends with all public property setters of the object, found by introspection, and further calls). Family ode-data: initial values / boundary data / interval / mesh as list, tuple, float64, int, float32 "
+    "repeated values; every sequence ends with all public property setters of the object, found by introspection, and further calls). Family ode-structure: ODEs whose lower-order terms are absent (scalar zeros, zero array, zero-returning callables) or only partly present x leading coefficient 1 / constant / callable (fresh, cached, view) x rhs returning its argument / a cached array / a view / a fresh array x orders 1-3 x solver x transform x read-only; mesh and data compared bitwise after the solve and after evaluating the solution. Family ode-data: initial values / boundary data / interval / mesh as list, tuple, float64, int, float32 "
     "array and strided view x orders 1-3 x every transform setting x read-only, compared bitwise after the call. Non-fresh patterns first run the fresh "
     "baseline and compare results; every scenario finally compares every array/list/dict it created with a pristine copy (covers arrays handed to a "
     "constructor and modified by a later method). thorough adds more replicas and the repository's own tests run under the monitor in shards "
@@ -104,6 +104,9 @@ def cases(tier, seed):
             for order in (1, 2, 3):
                 for ro in (False, True):
                     out.append(("ode-data", {"solver": solver, "tf": tf, "order": order, "readonly": ro}, 2.0))
+                    # ODE structure: absent lower-order terms (scalar zeros / zero array / zero-returning callables / only one
+                    # term present) x leading coefficient (1, constant != 1, callables) x rhs kind, rotated through inside the case
+                    out.append(("ode-structure", {"solver": solver, "tf": tf, "order": order, "readonly": ro, "stride": 9 if tier == "quick" else 3}, 3.0 if tier == "quick" else 8.0))
     for kind in ("bvp", "ivp", "robust", "robust-split2", "laplacian", "bvp-mol"):
         for mode in MODES:
             for k in range(1 if tier == "quick" else 3):
@@ -1375,6 +1378,120 @@ def run_ode(ctx, p):
     ctx.check("result-independent-of-argument-pattern", subject, m, TOL_SOLVE, sig="callback-aliasing-changes-solution", detail={"rel_diff": m})
 
 
+LOWER_KINDS = ("zero-scalars", "zero-array", "zero-callables", "only-a0", "only-highest-lower")
+LEAD_KINDS = ("one", "constant", "callable-fresh", "callable-cached", "callable-view-of-cache")
+RHS_KINDS = ("arg", "cached", "view-of-cache", "fresh")
+STRUCTURES = [(lo_, le_, r_) for lo_ in LOWER_KINDS for le_ in LEAD_KINDS for r_ in RHS_KINDS]
+
+
+def _structure_solve(p, combo, cbf, alias_kinds, seed):
+    """One solve of  sum_k a_k y^(k) = f  whose lower-order terms are (partly) absent and whose leading coefficient need
+    not be 1. alias_kinds=False: every callback hands out fresh arrays (baseline, same mathematics)."""
+    from grid.ode import solve_ode_bvp, solve_ode_ivp
+
+    lower, lead, rhs = combo
+    order, ro = p["order"], cbf.readonly
+    rng = np.random.default_rng(seed)
+    tf, (lo, hi) = _ode_tf(p["tf"])
+    c_rhs = float(rng.uniform(0.5, 2.0))
+
+    def cb(kind, const):
+        if kind in ("arg", "fresh"):
+            return cbf.make("arg" if (alias_kinds and kind == "arg") else "fresh-x", const)
+        return cbf.make(kind if alias_kinds else "fresh-const", const)
+
+    fx = cb(rhs, c_rhs)
+    if lower == "zero-scalars":
+        low = [0, 0.0, 0][:order]
+    elif lower == "zero-array":
+        low = [0.0] * order
+    elif lower == "zero-callables":
+        low = [cb("cached" if i % 2 == 0 else "fresh-const", 0.0) if alias_kinds else cbf.make("fresh-const", 0.0) for i in range(order)]
+    elif lower == "only-a0":
+        low = [0.7] + [0.0] * (order - 1)
+    else:
+        low = [0.0] * (order - 1) + [-0.4]
+    if lead == "one":
+        top = 1.0
+    elif lead == "constant":
+        top = 2.5
+    elif lead == "callable-fresh":
+        _ro = cbf._ro
+        top = lambda x: _ro(1.5 + 0.1 * np.asarray(x, dtype=float))  # noqa: E731
+    else:
+        top = cb("cached" if lead == "callable-cached" else "view-of-cache", 2.0)
+    coeffs = low + [top]
+    if lower == "zero-array" and not callable(top):
+        coeffs = np.array(coeffs, dtype=float)
+        if ro:
+            coeffs.setflags(write=False)
+    n = int(rng.integers(12, 26))
+    x = np.linspace(lo, hi, n)
+    ev = np.linspace(lo, hi, 9)[1:-1]
+    if ro:
+        x.setflags(write=False)
+        ev.setflags(write=False)
+    held = {"x": x, "ev": ev}
+    np.random.seed(4321)
+    if p["solver"] == "bvp":
+        bd = [[0, 0, 0.3], [1, 0, 1.1], [0, 1, 0.2]][:order]
+        guess = np.zeros((order, n))
+        if ro:
+            guess.setflags(write=False)
+        held.update(bd_cond=bd, initial_guess_y=guess)
+        pristine = _deep(held)
+        sol = solve_ode_bvp(x, fx, coeffs, bd, tf, 1e-5, 20000, guess, False)
+    else:
+        y0 = np.array([0.3, 0.2, -0.1][:order])
+        if ro:
+            y0.setflags(write=False)
+        held.update(y0=y0)
+        pristine = _deep(held)
+        sol = solve_ode_ivp((lo, hi), fx, coeffs, y0, tf, "DOP853", False, 1e-8, 1e-8)
+    after_solve = [k for k in held if not _same(held[k], pristine[k])]
+    val = np.asarray(sol(ev), dtype=float)
+    val2 = np.asarray(sol(x), dtype=float)  # the returned solution evaluated on the caller's mesh itself
+    after_eval = [k for k in held if not _same(held[k], pristine[k])]
+    return val, val2, after_solve, after_eval
+
+
+def run_ode_structure(ctx, p):
+    seed0 = int(ctx.rng.integers(0, 2**31))
+    off = (p["order"] * 7 + len(p["tf"]) + (3 if p["solver"] == "ivp" else 0) + (5 if p["readonly"] else 0)) % p["stride"]
+    ran = 0
+    for j in range(off, len(STRUCTURES), p["stride"]):
+        combo = STRUCTURES[j]
+        lower, lead, rhs = combo
+        subject = f"solve_ode_{p['solver']}[tf={p['tf']},lower={lower},lead={lead},rhs={rhs}{',read-only' if p['readonly'] else ''}]"
+        seed = [ctx.seed, seed0, j]
+        try:
+            base, base2, _, _ = _structure_solve(p, combo, _CB(False), False, seed)
+        except ValueError as exc:
+            if "converge" in str(exc):
+                ctx.count("ode-structure:baseline-not-converged")
+                continue
+            raise
+        cbf = _CB(p["readonly"])
+        out = None
+        with ctx.guard("no-exception", subject):
+            try:
+                out = _structure_solve(p, combo, cbf, True, seed)
+            except _RunAway:
+                ctx.count("ode-structure:runaway")
+        ran += 1
+        if out is None:
+            continue
+        val, val2, ch1, ch2 = out
+        short = f"solve_ode_{p['solver']}[lower={lower},lead={lead},rhs={rhs}]"
+        ctx.check("caller-data-unchanged-after-sequence", short + ":after-solve", not ch1, sig="changed:" + ",".join(ch1), detail={"changed": ch1, "tf": p["tf"], "order": p["order"]})
+        ctx.check("caller-data-unchanged-after-sequence", short + ":after-evaluating-solution", not ch2, sig="changed:" + ",".join(ch2), detail={"changed": ch2, "tf": p["tf"], "order": p["order"]})
+        ctx.check("callback-cache-intact", short, cbf.caches_intact(), sig="cached-array-corrupted", detail={"tf": p["tf"], "order": p["order"], "read_only": p["readonly"]})
+        m = max(_reldiff(base, val), _reldiff(base2, val2))
+        ctx.check("result-independent-of-argument-pattern", subject, m, TOL_SOLVE, sig="callback-aliasing-changes-solution", detail={"rel_diff": m})
+    if ran == 0:
+        ctx.discard("no structure solved")
+
+
 DATA_KINDS = ("list", "tuple", "float64-array", "int-array", "float32-array", "float64-view")
 
 
@@ -1686,6 +1803,8 @@ def run_case(ctx, family, params):
         run_ode(ctx, params)
     elif family == "ode-data":
         run_ode_data(ctx, params)
+    elif family == "ode-structure":
+        run_ode_structure(ctx, params)
     elif family == "poisson":
         run_poisson(ctx, params)
     elif family == "repo-tests":
